@@ -670,6 +670,12 @@ func checkWith(goroutinesFor func(i int) int) func(c sim.ChainCase) error {
 		// revises) and refreshes the copies with each update's UpdateElementProof. Using an update is reading it: the
 		// retained updates must still be what they were, whatever the client's elements go through afterwards.
 		client := &sim.ProofFollower{Held: map[uint64]types.StateElement{}}
+		var incomingV1 types.V1Block
+		var incomingV2 types.V2Block
+		var incomingSupp consensus.V1BlockSupplement
+		var held *types.Block
+		var heldSupp *consensus.V1BlockSupplement
+		var heldEnc, heldSuppEnc []byte
 		hooks := sim.Hooks{
 			AfterApply: func(ch *sim.Chain, st *sim.Step, parent consensus.State, au consensus.ApplyUpdate) error {
 				if err := stillSame(fmt.Sprintf("after the block at height %d was applied", ch.Height())); err != nil {
@@ -696,6 +702,40 @@ func checkWith(goroutinesFor func(i int) int) func(c sim.ChainCase) error {
 				i++
 				if err := checkBlock(ch, *st.Block, *st.Supp, "honest", goroutinesFor(i)); err != nil {
 					return err
+				}
+				// a node decodes the blocks (and supplements) it receives into one variable and hands the value on (queue,
+				// cache, validator): the block decoded earlier must stay the block it was when the next one is decoded
+				// into the same variable, and validating it must still give the verdict it gave
+				if goroutinesFor(i) <= 1 {
+					if held != nil {
+						wasID, wasEnc := held.ID(), heldEnc
+						dec := types.NewBufDecoder(enc(types.V1Block(*st.Block)))
+						incomingV1.DecodeFrom(dec)
+						if st.Block.V2 != nil {
+							dec2 := types.NewBufDecoder(enc(types.V2Block(*st.Block)))
+							incomingV2.DecodeFrom(dec2)
+						}
+						dsup := types.NewBufDecoder(enc(*st.Supp))
+						incomingSupp.DecodeFrom(dsup)
+						if held.ID() != wasID || !bytes.Equal(enc(types.V1Block(*held)), wasEnc) || !bytes.Equal(enc(*heldSupp), heldSuppEnc) {
+							return stats.Failf("C09/decoded-block-changed-by-a-later-decode", "height %d: the block (or supplement) decoded earlier into the same variable changed when the next one was decoded", ch.Height()+1)
+						}
+					} else {
+						incomingV1.DecodeFrom(types.NewBufDecoder(enc(types.V1Block(*st.Block))))
+						if st.Block.V2 != nil {
+							incomingV2.DecodeFrom(types.NewBufDecoder(enc(types.V2Block(*st.Block))))
+						}
+						incomingSupp.DecodeFrom(types.NewBufDecoder(enc(*st.Supp)))
+					}
+					hb := types.Block(incomingV1)
+					if st.Block.V2 != nil {
+						hb = types.Block(incomingV2)
+					}
+					hs := incomingSupp
+					held, heldSupp = &hb, &hs
+					heldEnc, heldSuppEnc = enc(types.V1Block(hb)), enc(hs)
+					rec := stats.G()
+					rec.Label("decoded-into-a-reused-variable")
 				}
 				if goroutinesFor(i) <= 1 {
 					if err := checkCopies(*st.Block); err != nil {
